@@ -124,7 +124,7 @@ WMax(p, q) ==
       [] o = OP_CALL -> (IF c >= 2 THEN a + c - 2 ELSE -1)
       [] o = OP_VARARG -> (IF b = 1 THEN -1 ELSE IF b = 0 THEN a ELSE a + b - 2)
       [] o = OP_FORLOOP -> a + 3
-      [] o = OP_TFORLOOP -> a + 2 + c
+      [] o = OP_TFORLOOP -> Max2(a + 2 + c, a + 5)
       [] OTHER -> -1
 (* function entry writes the parameters R(0)..R(np-1) and, with VarArgHasArg, *)
 (* the arg slot R(np); both are reported by the frame rules of ProtoViol       *)
@@ -260,11 +260,17 @@ InstrViol(p, hd, pc) ==
             (IF b = 0 THEN Open ELSE {})
       [] o = OP_RETURN ->
             (IF b >= 2 THEN R(a, "A") \cup R(a + b - 2, "values(A+B-2)") ELSE {}) \cup
+            \* no value: R(A) is not accessed, but A is a register field and must still name a register
+            \* of the frame (PUC luaG_checkcode: checkreg(pt, a) for every instruction)
+            (IF b = 1 /\ a >= p.nreg THEN {"reg-range:RETURN:A(no-values)"} ELSE {}) \cup
             (IF b = 0 THEN Open ELSE {})
       [] o = OP_FORLOOP -> W(a + 3, "loop-variable(A+3)") \cup J(pc + 1 + bx - 131071)
       [] o = OP_FORPREP -> R(a + 2, "A+2") \cup J(pc + 1 + bx - 131071)
       [] o = OP_TFORLOOP ->
             R(a + 2, "A+2") \cup W(a + 2 + c, "results(A+2+C)") \cup
+            \* the handler copies generator, state and control into R(A+3)..R(A+5) before the call
+            \* (Lua 5.1 reserves these three slots: luaK_checkstack(fs, 3) in forlist)
+            (IF a + 2 + c < p.nreg THEN W(a + 5, "call-window(A+5)") ELSE {}) \cup
             (IF c = 0 THEN {"tforloop:no-result-register"} ELSE {}) \cup
             (IF pc + 1 > n - 1 \/ ~hd.h[pc + 2] \/ Op(p, pc + 1) # OP_JMP
              THEN {"group:TFORLOOP:not-followed-by-JMP"} ELSE {}) \cup
